@@ -6,12 +6,13 @@ cd "$(dirname "$0")/.."
 V=$(pwd)
 ok=0; bad=0
 for d in seeded/${1:-}*/; do
-  name=$(basename $d); prop=$(python3 -c "import json;print(json.load(open('$d/meta.json'))['property'])" 2>/dev/null || echo ${name:0:3})
+  name=$(basename $d); prop=$(python3 -c "import json;m=json.load(open('$d/meta.json'));print(m.get('property_caught_by', m['property']))" 2>/dev/null || echo ${name:0:3})
+  tier=$(python3 -c "import json;print(json.load(open('$d/meta.json')).get('tier','quick'))" 2>/dev/null || echo quick)
   if python3 -c "import json,sys;sys.exit(0 if 'superseded' in json.load(open('$d/meta.json')) else 1)" 2>/dev/null; then echo "SKIPPED $name (superseded)"; continue; fi
   wt=/tmp/seedwt-$name
   git -C /repo worktree add -q $wt HEAD || continue
   if git -C $wt apply $V/$d/patch.diff; then
-    out=$(VERIF_REPO=$wt ./check $prop quick 2>&1); rc=$?
+    out=$(VERIF_REPO=$wt ./check $prop $tier 2>&1); rc=$?
     if [ $rc -eq 1 ]; then ok=$((ok+1)); echo "CAUGHT  $name by $prop: $(echo "$out" | grep -m1 '^VIOLATION' | sed 's/.*sig=//' | cut -c1-100)"; else bad=$((bad+1)); echo "MISSED  $name by $prop (exit $rc)"; fi
   else echo "PATCH-DOES-NOT-APPLY $name"; bad=$((bad+1)); fi
   git -C /repo worktree remove --force $wt
